@@ -8,6 +8,7 @@ import (
 	"go/types"
 	"sort"
 	"strings"
+	"unicode"
 
 	"golang.org/x/tools/go/ssa"
 )
@@ -303,6 +304,9 @@ func runC07(c *Ctx) {
 	checkMergeResultEntityUse(c)
 	checkHashIsValidCanonical(c, "R7.12")
 	checkLabelChange(c)
+	checkStatusAndOneLineTables(c)
+	checkIdentityValidate(c)
+	checkReadGuards(c)
 	checkIdentityMergeComparesCommits(c)
 	roots := dataEntryPoints(w)
 	if len(roots) < 15 {
@@ -1083,4 +1087,116 @@ func checkHashIsValidCanonical(c *Ctx, rule string) {
 	}
 	c.Check(bad == "", rule, "Hash.IsValid:canonical", pos, "accepts exactly lower-case hexadecimal strings of length 40 or 64",
 		bad+": file hashes in another spelling are committed by this replica and refused ('file with invalid hash') by every other one")
+}
+
+// R7.13: two more value tables that validation of remote data rests on, tabulated from the SSA of the
+// functions themselves: a status is valid iff it is Open or Closed (every other integer, negative ones
+// included, is refused — MarshalGQL panics on an unknown status), and a one-line text is safe iff it
+// holds no control character at all (CR and TAB included: they pass the multi-line test only).
+func checkStatusAndOneLineTables(c *Ctx) {
+	w := c.W
+	c.Doc("R7.13", "common.Status.Validate, evaluated for -3…6 and the extreme integers, fails exactly when the status is neither OpenStatus nor ClosedStatus; text.SafeOneLine, evaluated on every one-rune string of U+0000–U+02FF and class representatives, answers false exactly for control characters")
+	errExt := func(a []fval) (fval, error) { return fval{k: fErr, b: true}, nil }
+	ext := map[string]func(args []fval) (fval, error){
+		"fmt.Errorf": errExt, "errors.New": errExt, "github.com/pkg/errors.New": errExt, "github.com/pkg/errors.Errorf": errExt,
+		"strings.Contains": func(a []fval) (fval, error) {
+			if len(a) != 2 || a[0].k != fStr || a[1].k != fStr {
+				return fval{}, fmt.Errorf("unexpected arguments")
+			}
+			return fval{k: fBool, b: strings.Contains(string(a[0].rs), string(a[1].rs))}, nil
+		},
+		"strings.ContainsRune": func(a []fval) (fval, error) {
+			if len(a) != 2 || a[0].k != fStr || a[1].k != fInt {
+				return fval{}, fmt.Errorf("unexpected arguments")
+			}
+			return fval{k: fBool, b: strings.ContainsRune(string(a[0].rs), rune(a[1].i))}, nil
+		},
+		"strings.ContainsAny": func(a []fval) (fval, error) {
+			if len(a) != 2 || a[0].k != fStr || a[1].k != fStr {
+				return fval{}, fmt.Errorf("unexpected arguments")
+			}
+			return fval{k: fBool, b: strings.ContainsAny(string(a[0].rs), string(a[1].rs))}, nil
+		},
+	}
+	for name, f := range map[string]func(rune) bool{"unicode.IsControl": unicode.IsControl, "unicode.IsPrint": unicode.IsPrint, "unicode.IsSpace": unicode.IsSpace, "unicode.IsGraphic": unicode.IsGraphic} {
+		f := f
+		ext[name] = func(a []fval) (fval, error) {
+			if len(a) != 1 || a[0].k != fInt {
+				return fval{}, fmt.Errorf("unexpected arguments")
+			}
+			return fval{k: fBool, b: f(rune(a[0].i))}, nil
+		}
+	}
+	// Status.Validate
+	if fn := w.Method("entities/common", "Status", "Validate"); fn != nil {
+		c.seeFn(funcName(fn))
+		open, okO := pkgConstInt(w, "entities/common", "OpenStatus")
+		closed, okC := pkgConstInt(w, "entities/common", "ClosedStatus")
+		if !okO || !okC {
+			c.Undecided("R7.13", "Status.Validate:exactly-open-or-closed", w.FnPos(fn), "status constants not found")
+		} else {
+			bad, undec := "", ""
+			for _, v := range []int64{-1 << 62, -1000, -3, -2, -1, 0, 1, 2, 3, 4, 5, 6, 1000, 1 << 62} {
+				c.Sites++
+				env := &fenv{concrete: true, extern: ext, cells: map[int]*fval{}}
+				rs, err := env.run(fn, []fval{{k: fInt, i: v}}, 0)
+				if err != nil || len(rs) != 1 || rs[0].k != fErr {
+					undec = fmt.Sprintf("%v", err)
+					break
+				}
+				want := v != open && v != closed
+				if rs[0].b != want && bad == "" {
+					bad = fmt.Sprintf("status %d is answered %s", v, map[bool]string{true: "invalid", false: "valid"}[rs[0].b])
+				}
+			}
+			if undec != "" {
+				c.Info("R7.13", "Status.Validate:exactly-open-or-closed", w.FnPos(fn), "not interpreted: "+undec)
+			} else {
+				c.Check(bad == "", "R7.13", "Status.Validate:exactly-open-or-closed", w.FnPos(fn), "invalid iff neither open nor closed", bad+": a remote set-status operation with that value is merged, the bug is then neither open nor closed and serving it panics")
+			}
+		}
+	} else {
+		c.Undecided("R7.13", "anchor:Status.Validate", "entities/common", "not found")
+	}
+	// SafeOneLine
+	if fn := w.Func("util/text", "SafeOneLine"); fn != nil {
+		c.seeFn(funcName(fn))
+		var runes []rune
+		for r := rune(0); r <= 0x2FF; r++ {
+			runes = append(runes, r)
+		}
+		runes = append(runes, 0x200B, 0x2028, 0x2029, 0x3000, 0xFEFF, 0xFFFD, 0x1F600, 0x10FFFF)
+		bad, undec := "", ""
+		for _, r := range runes {
+			c.Sites++
+			env := &fenv{concrete: true, extern: ext, cells: map[int]*fval{}}
+			rs, err := env.run(fn, []fval{{k: fStr, rs: []rune{r}}}, 0)
+			if err != nil || len(rs) != 1 {
+				undec = fmt.Sprintf("%v", err)
+				break
+			}
+			if rs[0].b != !unicode.IsControl(r) && bad == "" {
+				bad = fmt.Sprintf("U+%04X is answered %v", r, rs[0].b)
+			}
+		}
+		if undec != "" {
+			c.Info("R7.13", "text.SafeOneLine:no-control-character", w.FnPos(fn), "not interpreted: "+undec)
+		} else {
+			c.Check(bad == "", "R7.13", "text.SafeOneLine:no-control-character", w.FnPos(fn), "false exactly for control characters", bad+": a carriage return or a tab in a name, login, e-mail, title or label passes validation")
+		}
+	} else {
+		c.Undecided("R7.13", "anchor:text.SafeOneLine", "util/text", "not found")
+	}
+}
+
+func pkgConstInt(w *World, pkg, name string) (int64, bool) {
+	p := w.Pkg(pkg)
+	if p == nil {
+		return 0, false
+	}
+	k, ok := p.Types.Scope().Lookup(name).(*types.Const)
+	if !ok {
+		return 0, false
+	}
+	return constantInt(k)
 }
